@@ -14,7 +14,7 @@ THEOREMS = ['C14_cells_none_lost', 'C14_cells_none_lost_in', 'C14_cells_keys', '
             # sdf.py from TEXT (Model/SdfText.v)
             'C14_text_parse_cfile', 'C14_text_parse_print', 'C14_text_print_is_cfile', 'C14_text_ignored_text_irrelevant',
             'C14_text_skipped_items_irrelevant', 'C14_text_entry_kept', 'C14_text_entry_kept_any', 'C14_text_delayfile_of_blocks',
-            'C14_text_example', 'C14_text_name_whitespace_refuted']
+            'C14_text_example', 'C14_text_name_whitespace_ends_name']
 LIBS = ['NANGATE', 'SAED32', 'SAED90', 'GSC180', 'NANGATE_ZN']
 
 
@@ -168,7 +168,7 @@ def run(ck):
     tcases += cs
     tmeta += ds
     ck.count(len(cs), 'text:number')
-    # the probes behind C14_text_name_whitespace_refuted, against the implementation (known finding, reported as such below)
+    # the probes behind C14_text_name_whitespace_ends_name, against the implementation (D34, fixed by d9c2c16: reported again if it returns)
     ws_probe = st.whitespace_probe()
     tsize = 60
     tchunks = [tcases[i:i + tsize] for i in range(0, len(tcases), tsize)]
@@ -188,8 +188,10 @@ def run(ck):
     lp = st.lexer_probe()
     ck.obligation('lark builds the scanners Model/SdfText.v is transcribed from (contextual lexer; regular expressions before string literals, in the order '
                   + ', '.join(st.TERMINAL_ORDER) + '; at most one non-ignore regular expression per parser state)', lp is None, 'translation', str(lp))
-    ck.obligation('implementation on the probes of C14_text_name_whitespace_refuted: a newline / tab next to a name is lexed into the name '
-                  '(instance "u1\\n": its IOPATH delays are dropped with a warning; "A1<TAB>ZN": one pin name)', ws_probe is None, 'oracle', str(ws_probe))
+    ck.obligation('implementation on the probes of C14_text_name_whitespace_ends_name: a newline / tab next to a name ends the name '
+                  '(instance "u1" NEWLINE: its IOPATH delays are annotated as without the newline; "A1<TAB>ZN": two pin names)', ws_probe is None, 'oracle', str(ws_probe))
+    if ws_probe is not None:
+        fails.append(('text:name-whitespace', {'probe': ws_probe}, 'sdf.py grammar: white space next to a name is lexed into the name: ' + ws_probe))
 
     per = 25
     chunks = [cases[i:i + per] for i in range(0, len(cases), per)]
